@@ -257,6 +257,42 @@ def runC (st : St) (rs : List Req) : St := rs.foldl (stepC ds cfg ssj val ujac) 
 
 end
 
+/-! ### Function roles
+
+`EvaluationProblem.preprocess_functions(cfg)` wraps, with `_preprocess_function`, every function of
+every role: the constraints, the observables, the observables of the new-iteration list (the same
+user functions as the observables, wrapped a second time) and the objective (the attribute named in
+`_function_names`).  Every role receives the caller's switches; the only role-dependent switch is
+`is_function_input_normalized`, forced to `False` for the new-iteration list (the database listener
+calls these functions with the physical point of the new entry).  All the wrapped functions share
+the one database of the problem. -/
+
+inductive Role where
+  | objective | constraint | observable | newIterObservable
+  deriving Repr, DecidableEq
+
+/-- The switches `preprocess_functions` hands to `_preprocess_function` for a function of a role. -/
+def roleCfg (cfg : Cfg) : Role → Cfg
+  | .newIterObservable => { cfg with normalized := false }
+  | _ => cfg
+
+/-- A request made through the accessor of a role (`problem.objective`, `problem.constraints[i]`,
+    `problem.observables[i]`, `problem.new_iter_observables[i]`). -/
+structure RReq where
+  role : Role
+  req : Req
+  deriving Repr
+
+section
+variable (ds : DS) (cfg : Cfg) (ssj : Bool) (val : String → List Rat → List Rat)
+  (ujac : String → List Rat → UserJac)
+
+def stepR (st : St) (r : RReq) : St := stepC ds (roleCfg cfg r.role) ssj val ujac st r.req
+
+def runR (st : St) (rs : List RReq) : St := rs.foldl (stepR ds cfg ssj val ujac) st
+
+end
+
 /-- Edit prefix: the design space of a session is the result of a history of public edits. -/
 def spaceOf (tol : Rat) (ops : List Op) : DS := DS.run tol DS.empty ops
 
